@@ -215,6 +215,25 @@ fn c01(a: &Args) -> Report {
         t.depth = s.depth - 1;
         specs.push(t);
     }
+    // filter groups: with small group sizes the merged bloom / range filters of groups of closed
+    // blobs decide which blobs a lookup visits; three ordered keys so that a blob can extend a
+    // group's key range on either side or on both
+    {
+        let fa = vec![Op::w(0, 1), Op::w(1, 1), Op::w(2, 1), Op::w(2, 2), Op::d(2, 2), Op::d(0, 2), Op::Rot, Op::Rst];
+        let mut t = SeqSpec::new("C01/filter-groups/group2", fa, if thorough { 7 } else { 5 });
+        t.checks = Checks { outcome: true, latest: true, ..Default::default() };
+        t.wcfg.group_size = 2;
+        t.keys = vec![0, 1, 2];
+        specs.push(t.clone());
+        if thorough {
+            // three blobs per group need deeper histories: writes and rotations only
+            t.name = "C01/filter-groups/group3".into();
+            t.alphabet = vec![Op::w(0, 1), Op::w(1, 1), Op::w(2, 1), Op::d(2, 2), Op::Rot];
+            t.depth = 8;
+            t.wcfg.group_size = 3;
+            specs.push(t);
+        }
+    }
     // version runs: one key, every sequence of writes / deletes over three timestamps (the
     // insertion path changes beyond four versions of a key), observed in memory, through the
     // on-disk index (after a rotation) and after a restart
@@ -413,6 +432,7 @@ fn c07(a: &Args) -> Report {
         Op::Rst,
         Op::RstLazy,
         Op::DamageRst,
+        Op::DamageRstLazy,
     ];
     let mut s = SeqSpec::new("C07/seq", alphabet, if thorough { 6 } else { 5 });
     s.checks = Checks { no_harm: true, ..Default::default() };
@@ -495,6 +515,7 @@ fn c13(a: &Args) -> Report {
         Op::w(0, 1),
         Op::d(0, 2),
         Op::RstLazy,
+        Op::DamageRstLazy,
         Op::TickShort,
     ];
     let mut s = SeqSpec::new("C13/seq", alphabet, if thorough { 5 } else { 4 });
@@ -504,6 +525,8 @@ fn c13(a: &Args) -> Report {
     s.epilogue = vec![Op::w(7, 1), Op::w(7, 2), Op::w(7, 3), Op::TickShort, Op::Tick];
     s.keys = vec![0, 7];
     s.checks = Checks { alive: true, rotation: true, ..Default::default() };
+    // `DamageRstLazy` as the first operation gives the state with neither an active nor a closed
+    // blob, in which every background lifecycle request "cannot apply"
     let results = run_specs(&[s], a, &no_known);
     let mut rep = seq_report("C13", a, "model_checking", results, SEQ_RULE);
     // epilogue writers interleaved with the worker, from every lifecycle prefix of depth <= 2
@@ -553,6 +576,7 @@ fn c15(a: &Args) -> Report {
         Op::TryCreate,
         Op::Rot,
         Op::DamageRst,
+        Op::DamageRstLazy,
         Op::Rst,
         Op::RstLazy,
     ];
@@ -569,7 +593,9 @@ fn c15(a: &Args) -> Report {
 
 fn c03(a: &Args) -> Report {
     let thorough = a.tier == "thorough";
-    let alphabet = vec![Op::w(0, 1), Op::w(1, 2), Op::w(0, 2), Op::d(0, 2), Op::Rot, Op::TryClose];
+    // `DamageRst`: a start that quarantines the highest-id blob (ids "ever present" then include
+    // one that is no longer in the work directory)
+    let alphabet = vec![Op::w(0, 1), Op::w(1, 2), Op::w(0, 2), Op::d(0, 2), Op::Rot, Op::TryClose, Op::DamageRst];
     let mut spec = SeqSpec::new("C03/restart", alphabet, if thorough { 5 } else { 4 });
     spec.metas = vec![0];
     let fine_depth = if thorough { 3 } else { 2 };
